@@ -64,6 +64,72 @@ def scale_cases(root):
     return out
 
 
+XH = '<xs:schema xmlns:xs="http://www.w3.org/2001/XMLSchema" xmlns:tns="urn:c" targetNamespace="urn:c" elementFormDefault="qualified">\n'
+XF = "</xs:schema>\n"
+
+
+def group_chain(depth, fan):
+    """`depth` model groups declared before the groups they refer to (forward references), each referring `fan` times to the next"""
+    s = XH
+    for i in range(depth):
+        refs = "".join(f'<xs:group ref="tns:G{i+1}"/>' for _ in range(fan)) if i < depth - 1 else '<xs:element name="x" type="xs:string"/>'
+        s += f'<xs:group name="G{i}"><xs:sequence>{refs}</xs:sequence></xs:group>\n'
+    return s + '<xs:complexType name="T"><xs:sequence><xs:group ref="tns:G0"/></xs:sequence></xs:complexType>\n' + XF
+
+
+def wsdl_parts(inbody, outbody, inhdr="", outhdr=""):
+    return f'''<?xml version="1.0"?>
+<wsdl:definitions xmlns:wsdl="http://schemas.xmlsoap.org/wsdl/" xmlns:soap="http://schemas.xmlsoap.org/wsdl/soap/" xmlns:xs="http://www.w3.org/2001/XMLSchema" xmlns:tns="urn:w" targetNamespace="urn:w">
+<wsdl:types><xs:schema targetNamespace="urn:w" elementFormDefault="qualified">
+<xs:element name="Req"><xs:complexType><xs:sequence><xs:element name="a" type="xs:string"/></xs:sequence></xs:complexType></xs:element>
+<xs:element name="Resp"><xs:complexType><xs:sequence><xs:element name="b" type="xs:string"/></xs:sequence></xs:complexType></xs:element>
+<xs:element name="Hdr"><xs:complexType><xs:sequence><xs:element name="h" type="xs:string"/></xs:sequence></xs:complexType></xs:element>
+</xs:schema></wsdl:types>
+<wsdl:message name="In"><wsdl:part name="parameters" element="tns:Req"/><wsdl:part name="hdr" element="tns:Hdr"/></wsdl:message>
+<wsdl:message name="Out"><wsdl:part name="parameters" element="tns:Resp"/><wsdl:part name="hdr" element="tns:Hdr"/></wsdl:message>
+<wsdl:portType name="PT"><wsdl:operation name="Op"><wsdl:input message="tns:In"/><wsdl:output message="tns:Out"/></wsdl:operation></wsdl:portType>
+<wsdl:binding name="B" type="tns:PT"><soap:binding style="document" transport="http://schemas.xmlsoap.org/soap/http"/>
+<wsdl:operation name="Op"><soap:operation soapAction="urn:w/Op"/>
+<wsdl:input>{inhdr}<soap:body use="literal"{inbody}/></wsdl:input>
+<wsdl:output>{outhdr}<soap:body use="literal"{outbody}/></wsdl:output></wsdl:operation></wsdl:binding>
+<wsdl:service name="S"><wsdl:port name="P" binding="tns:B"><soap:address location="http://localhost:1/s"/></wsdl:port></wsdl:service>
+</wsdl:definitions>
+'''
+
+
+def reference_cases(root):
+    """legal but unusual reference shapes, each in its own process: references of every kind that lead back to the component being
+    read (model groups, attribute groups, a type and a group sharing one name), and `soap:body parts=` edge cases"""
+    out = []
+
+    def add(name, text, ext="xsd"):
+        d = os.path.join(root, "refs", name, "in")
+        os.makedirs(d)
+        open(os.path.join(d, f"main.{ext}"), "w").write(text)
+        out.append({"dir": os.path.dirname(d), "in": d, "start": f"main.{ext}", "meta": {"features": "refs " + name}, "ref": None})
+
+    el = '<xs:element name="x" type="xs:string"/>'
+    add("type-and-group-share-a-name", XH + f'<xs:complexType name="T"><xs:sequence><xs:group ref="tns:T"/></xs:sequence></xs:complexType>\n<xs:group name="T"><xs:sequence>{el}</xs:sequence></xs:group>\n' + XF)
+    add("group-cycle", XH + '<xs:group name="G1"><xs:sequence><xs:group ref="tns:G2"/></xs:sequence></xs:group>\n<xs:group name="G2"><xs:sequence><xs:group ref="tns:G1"/></xs:sequence></xs:group>\n'
+        '<xs:complexType name="T"><xs:sequence><xs:group ref="tns:G1"/></xs:sequence></xs:complexType>\n' + XF)
+    add("group-refers-to-itself", XH + f'<xs:complexType name="T"><xs:sequence><xs:group ref="tns:G"/></xs:sequence></xs:complexType>\n<xs:group name="G"><xs:sequence><xs:group ref="tns:G"/>{el}</xs:sequence></xs:group>\n' + XF)
+    add("attribute-group-refers-to-itself", XH + f'<xs:complexType name="T"><xs:sequence>{el}</xs:sequence><xs:attributeGroup ref="tns:A"/></xs:complexType>\n'
+        '<xs:attributeGroup name="A"><xs:attributeGroup ref="tns:A"/><xs:attribute name="a" type="xs:string"/></xs:attributeGroup>\n' + XF)
+    add("attribute-reference", XH + '<xs:complexType name="T"><xs:attribute ref="tns:a"/></xs:complexType>\n<xs:attribute name="a" type="xs:string"/>\n' + XF)
+    add("elements-with-anonymous-types-refer-to-each-other", XH + '<xs:element name="E"><xs:complexType><xs:sequence><xs:element ref="tns:F"/></xs:sequence></xs:complexType></xs:element>\n'
+        '<xs:element name="F"><xs:complexType><xs:sequence><xs:element ref="tns:E"/></xs:sequence></xs:complexType></xs:element>\n' + XF)
+    add("type-group-cycle-through-extension", XH + '<xs:complexType name="T"><xs:complexContent><xs:extension base="tns:U"><xs:sequence><xs:group ref="tns:G"/></xs:sequence></xs:extension></xs:complexContent></xs:complexType>\n'
+        '<xs:group name="G"><xs:sequence><xs:element name="t" type="tns:T"/><xs:group ref="tns:T"/></xs:sequence></xs:group>\n<xs:complexType name="U"><xs:sequence><xs:group ref="tns:G"/></xs:sequence></xs:complexType>\n' + XF)
+    add("forward-group-chain-12-fan-2", group_chain(12, 2))
+    hin = '<soap:header message="tns:In" part="hdr" use="literal"/>'
+    hout = '<soap:header message="tns:Out" part="hdr" use="literal"/>'
+    for name, args in (("parts-empty-input", (' parts=""', "")), ("parts-empty-output", ("", ' parts=""')), ("parts-only-a-header-part-input", (' parts="hdr"', "", hin)),
+                       ("parts-only-a-header-part-output", ("", ' parts="hdr"', "", hout)), ("parts-list", (' parts="parameters hdr"', "")), ("parts-unknown", (' parts="nope"', "")),
+                       ("parts-blank", (' parts=" "', ' parts=" parameters "'))):
+        add(name, wsdl_parts(*args), "wsdl")
+    return out
+
+
 def run_scale(cases, limit=30):
     for cs in cases:
         try:
@@ -116,8 +182,9 @@ def run(tier, seed):
     c.extract()
     c.lake_build(["zvspec"])
     proved = c.prove("ZeepVerif.Props.C13", "ZeepVerif/Audit/C13.lean")
+    proved = c.prove("ZeepVerif.Props.C13All", "ZeepVerif/Audit/C13All.lean") and proved
     if tier == "thorough" and proved:
-        c.leanchecker(["ZeepVerif.Props.C13"])
+        c.leanchecker(["ZeepVerif.Props.C13", "ZeepVerif.Props.C13All"])
     model_ok, model_err = c.lake_build(["zvdrv"])
     rng = random.Random(seed * 31337 + 13)
     root = g.scratch(f"C13-{tier}-{seed}")
@@ -154,6 +221,39 @@ def run(tier, seed):
         outcomes["scale: " + klass(cs["impl"])] += 1
         if cs["impl"].startswith(("panic", "crash", "timeout")) or not cs["impl"]:
             bad.append(cs)
+    refs = run_scale(reference_cases(root), limit=20)
+    for cs in refs:
+        outcomes["refs: " + klass(cs["impl"])] += 1
+        if cs["impl"].startswith(("panic", "crash", "timeout")) or not cs["impl"]:
+            bad.append(cs)
+    # the hypothesis of the termination theorem (Props/C13All.tableOKB) on the real parse of the mutants, and the theorem's
+    # conclusion on the executed model: where it holds the model must not have run out of fuel
+    if model_ok:
+        from .common import ZVDRV, run_lines
+        todo = [cs for cs in cases if os.path.exists(cs.get("dump", "") or "")]
+        rc, rep, err = run_lines([ZVDRV, "plainfile"], [cs["dump"] + "\t" + cs["start"] for cs in todo])
+        tok = sum(1 for r in rep if r.endswith("tok=1"))
+        contradicted = [cs for cs, r in zip(todo, rep) if r.endswith("tok=1") and "OutOfFuel" in (cs.get("model") or "")]
+        c.cov["termination_theorem"] = {"inputs_with_a_parse": len(todo), "hypothesis_tableOKB_holds": tok, "model_out_of_fuel_where_it_holds": len(contradicted)}
+        if contradicted:
+            c.proof["errors"].append("the model ran out of fuel on an input that meets the hypothesis of c13_reader_terminates: " + contradicted[0]["in"])
+    # the recorded finding: exponential time on forward references with fan-out (no memoisation of the fallback lookup)
+    listed = c.known_classes()
+    gdir = os.path.join(root, "fanout", "in")
+    os.makedirs(gdir)
+    open(os.path.join(gdir, "g.xsd"), "w").write(group_chain(26, 2))
+    import time as _t
+    t0 = _t.time()
+    try:
+        p = subprocess.run([ZV, "gen", gdir, "g.xsd", "-"], capture_output=True, text=True, timeout=8)
+        fan_outcome = (p.stdout.strip().split("\n")[-1] if p.returncode == 0 and p.stdout.strip() else f"crash rc={p.returncode}") + f" in {_t.time() - t0:.1f}s"
+    except subprocess.TimeoutExpired:
+        fan_outcome = "timeout after 8s"
+    if fan_outcome.startswith(("timeout", "crash")):
+        if "forward-reference-fanout-exponential" in listed and fan_outcome.startswith("timeout"):
+            c.known("forward-reference-fanout-exponential: 26 model groups, each declared before the group it refers to twice (a 2.6 kB schema): " + fan_outcome + "; 12 such groups take milliseconds, every two more quadruple the time")
+        else:
+            bad.append({"dir": os.path.join(root, "fanout"), "in": gdir, "start": "g.xsd", "impl": fan_outcome, "meta": {"features": "forward group chain 26 fan-out 2"}})
     # the recorded finding: very deep nesting, in a child process
     known_ok = None
     ddir = os.path.join(root, "deep", "in")
@@ -170,7 +270,6 @@ def run(tier, seed):
     p = subprocess.run([ZV, "gen", shallow_dir, "d.xsd", "-"], capture_output=True, text=True, timeout=120)
     shallow_outcome = p.stdout.strip() if p.returncode == 0 else f"crash rc={p.returncode}"
     if deep_outcome.startswith(("crash", "timeout")):
-        listed = c.known_classes()
         if "deep-nesting-stack-overflow" in listed:
             c.known(f"deep-nesting-stack-overflow: 60000 nested <xs:sequence> elements: {deep_outcome} (stack overflow inside roxmltree::Document::parse)")
         else:
@@ -191,6 +290,8 @@ def run(tier, seed):
         "disagreements_checked": len(cases) if model_ok else 0,
         "model_vs_impl_disagreements": len(corr),
         "scale_family": {cs["meta"]["features"]: cs["impl"][:60] for cs in scale},
+        "reference_family": {cs["meta"]["features"]: cs["impl"][:60] for cs in refs},
+        "fanout_probe": fan_outcome,
         "deep_nesting_probe": {"depth_60000": deep_outcome, "depth_300": shallow_outcome},
     })
     c.assumptions += ["stack size and wall-clock are the runtime's: the theorems bound recursion structurally (memberSites) and by construction (no panic site in the library); the differential run observes the real process",
